@@ -31,8 +31,11 @@ impl PlacedBuf {
         }
         PlacedBuf { ptr, layout: Some(layout), shift, len: data.len() }
     }
+    /// Base aligned to 256 (a multiple of every alignment unit of the
+    /// universes; larger alignments make every allocation page-sized under
+    /// ASan, whose quarantine then holds gigabytes).
     pub fn aligned(data: &[u8]) -> Self {
-        Self::new(data, 4096, 0)
+        Self::new(data, 256, 0)
     }
     pub fn bytes(&self) -> &[u8] {
         unsafe { std::slice::from_raw_parts(self.ptr.add(self.shift), self.len) }
